@@ -80,10 +80,10 @@ func c15Load(mainPath, personalPath string, cfg c15Config) (out c15Outcome) {
 	dr := recovery.NewDatabaseRecovery(recovery.RetryConfig{MaxAttempts: cfg.MaxAttempts, BaseDelay: time.Duration(cfg.BaseDelayUs) * time.Microsecond,
 		MaxDelay: time.Duration(cfg.MaxDelayUs) * time.Microsecond, BackoffFactor: cfg.BackoffFactor})
 	// the longest legitimate schedule here: 6 attempts with waits capped at 10 ms
-	db, err, ended := c15Watch(dr, mainPath, personalPath, 20*time.Second)
+	db, err, ended := c15Watch(dr, mainPath, personalPath, 60*time.Second)
 	os.Stdout = saved
 	if !ended {
-		out.Panic = fmt.Sprintf("loading did not end within 20 s (%d attempts so far): it must end after at most the configured number of attempts", out.Attempts)
+		out.Panic = fmt.Sprintf("loading did not end within 60 s (%d attempts so far): it must end after at most the configured number of attempts", out.Attempts)
 		return out
 	}
 	if err != nil {
@@ -122,8 +122,8 @@ func init() {
 	})
 }
 
-var c15MainFaults = []string{"good", "missing", "directory", "empty", "malformed", "wrong-shape", "binary", "unreadable"}
-var c15PersonalFaults = []string{"absent", "good", "empty", "malformed", "directory", "unreadable"}
+var c15MainFaults = []string{"good", "missing", "directory", "empty", "malformed", "wrong-shape", "binary", "unreadable", "unset"}
+var c15PersonalFaults = []string{"absent", "good", "empty", "malformed", "directory", "unreadable", "unset"}
 var c15BackupFaults = []string{"absent", "good", "malformed", "empty"}
 
 var c15MainCmds = []database.Command{
@@ -139,7 +139,7 @@ var c15PersonalCmds = []database.Command{
 func c15Materialise(dir, name, fault string, cmds []database.Command) string {
 	p := filepath.Join(dir, name)
 	switch fault {
-	case "missing", "absent":
+	case "missing", "absent", "unset":
 	case "good":
 		os.WriteFile(p, gen.EmitYAML(cmds), 0o644)
 	case "directory":
@@ -161,6 +161,12 @@ func c15Materialise(dir, name, fault string, cmds []database.Command) string {
 
 func c15Judge(mainF, persF, backF string, cfg c15Config, out c15Outcome) string {
 	where := fmt.Sprintf("main=%s personal=%s backup=%s config=%+v", mainF, persF, backF, cfg)
+	if mainF == "unset" {
+		mainF = "missing" // an empty path names no file: judged like a file that is not there
+	}
+	if persF == "unset" {
+		persF = "absent"
+	}
 	if out.Panic != "" {
 		return "loading crashed or hung: " + out.Panic + " (" + where + ")"
 	}
@@ -299,6 +305,12 @@ func c15Matrix(t gen.Fataler, rec *stat.Recorder, cfg c15Config) {
 					case "dot-relative":
 						mp, pp = "./commands.yml", "./personal.yml"
 					}
+					if mainF == "unset" {
+						mp = "" // no path configured at all: a file that is not there
+					}
+					if persF == "unset" {
+						pp = ""
+					}
 					if mainF == "unreadable" || persF == "unreadable" {
 						label = "child-uid"
 						r := proc.Run(proc.Cmd{Helper: "c15load", Args: []string{mp, pp, string(cj)}, UID: 65534, FSize: -1, Timeout: 60 * time.Second, Dir: dir})
@@ -403,11 +415,11 @@ func TestC15_Transient(t *testing.T) {
 		os.Stdout = devNull
 		dr := recovery.NewDatabaseRecovery(recovery.RetryConfig{MaxAttempts: cfg.MaxAttempts, BaseDelay: time.Duration(cfg.BaseDelayUs) * time.Microsecond,
 			MaxDelay: time.Duration(cfg.MaxDelayUs) * time.Microsecond, BackoffFactor: cfg.BackoffFactor})
-		db, err, ended := c15Watch(dr, mp, pp, 20*time.Second)
+		db, err, ended := c15Watch(dr, mp, pp, 60*time.Second)
 		os.Stdout = saved
 		recovery.VerifSetObserver(nil)
 		if !ended {
-			t.Fatalf("loading did not end within 20 s (%s file %s, config %+v)", which, fault, cfg)
+			t.Fatalf("loading did not end within 60 s (%s file %s, config %+v)", which, fault, cfg)
 		}
 		where := fmt.Sprintf("%s file %s until attempt %d, then %s, config=%+v, attempts seen=%d", which, fault, k, then, cfg, out.Attempts)
 		if then == "missing" && which == "personal" {
@@ -483,11 +495,11 @@ func TestC15_LongBudget(t *testing.T) {
 		})
 		saved := os.Stdout
 		os.Stdout = devNull
-		db, err, ended := c15Watch(recovery.NewDatabaseRecovery(cfg), mp, filepath.Join(dir, "personal.yml"), 30*time.Second)
+		db, err, ended := c15Watch(recovery.NewDatabaseRecovery(cfg), mp, filepath.Join(dir, "personal.yml"), 60*time.Second)
 		os.Stdout = saved
 		recovery.VerifSetObserver(nil)
 		if !ended {
-			t.Fatalf("loading did not end within 30 s (config %+v; the waits sum to at most %v)", cfg, time.Duration(cfg.MaxAttempts)*cfg.MaxDelay)
+			t.Fatalf("loading did not end within 60 s (config %+v; the waits sum to at most %v)", cfg, time.Duration(cfg.MaxAttempts)*cfg.MaxDelay)
 		}
 		if err != nil || db == nil || len(db.Commands) == 0 {
 			t.Fatalf("loading ended with err=%v and no usable fallback (config %+v)", err, cfg)
